@@ -13,8 +13,10 @@ class PathDumper(FileDumper):
 
     def write_file_to_output(self, filename, path):
         path = os.path.join(self.out_path, path)
-        # Avoid rewriting existing files
-        if self.add_filehash_to_path and os.path.exists(path):
+        # Avoid rewriting existing data files whose path holds their hash;
+        # the descriptor has a fixed name and must describe this dump
+        if self.add_filehash_to_path and self.resource_hash and \
+                os.path.exists(path) and os.path.basename(path) != 'datapackage.json':
             return
         path_part = os.path.dirname(path)
         PathDumper.__makedirs(path_part)
